@@ -95,3 +95,7 @@ fn exec_bound<const NSEQ: usize>() {
 harness! { fn c05_exec_bound_1seq() { exec_bound::<1>(); } }
 harness! { fn c05_exec_bound_2seq() { exec_bound::<2>(); } }
 harness! { fn c05_exec_bound_3seq() { exec_bound::<3>(); } }
+
+// C03: the precondition the chunk loop of DecodeBuffer::repeat needs (offset >= 1) holds at its only caller, for every
+// sequence incl. offset value 3 with zero literal length on a history holding 1 (S11e asserts it inside repeat).
+harness! { fn exec_never_repeats_offset_zero() { exec_bound::<2>(); } }
